@@ -258,3 +258,74 @@ theorem fromJson_writeSMap (m : SMap) :
   exact doc_roundtrip m
 
 end Rs.Json
+
+namespace Rs.Json
+
+/-! ## documents with reordered keys -/
+
+theorem find?_eq_filter_head {α} (p : α → Bool) (l : List α) : l.find? p = (l.filter p).head? := by
+  induction l with
+  | nil => rfl
+  | cons a l ih =>
+    by_cases h : p a = true
+    · rw [List.find?_cons_of_pos h, List.filter_cons_of_pos h]; rfl
+    · rw [List.find?_cons_of_neg h, List.filter_cons_of_neg h]; exact ih
+
+theorem perm_short_eq {α} (a b : List α) (h : a.Perm b) (hl : a.length ≤ 1) : a = b := by
+  have hb : b.length = a.length := h.length_eq.symm
+  match a, b, h, hl, hb with
+  | [], [], _, _, _ => rfl
+  | [], _ :: _, _, _, hb => simp at hb
+  | [x], [y], h, _, _ => have := h.mem_iff (a := x); simp at this; rw [this]
+  | [_], [], _, _, hb => simp at hb
+  | [_], _ :: _ :: _, _, _, hb => simp at hb
+  | _ :: _ :: _, _, _, hl, _ => simp at hl
+
+theorem field_perm (kvs kvs' : List (Text × JVal)) (h : kvs.Perm kvs') (k : Text) (hk : (kvs.filter (·.1 == k)).length ≤ 1) :
+    field kvs k = field kvs' k := by
+  unfold field
+  rw [find?_eq_filter_head, find?_eq_filter_head, perm_short_eq _ _ (h.filter _) hk]
+
+theorem dupKnown_perm (kvs kvs' : List (Text × JVal)) (h : kvs.Perm kvs') : dupKnown kvs = dupKnown kvs' := by
+  unfold dupKnown
+  congr 1; funext k
+  rw [(h.filter _).length_eq]
+
+theorem dupKnown_false_le (kvs : List (Text × JVal)) (h : dupKnown kvs = false) (k : Text) (hk : k ∈ knownKeys) :
+    (kvs.filter (·.1 == k)).length ≤ 1 := by
+  unfold dupKnown at h
+  rw [List.any_eq_false] at h
+  have := h k hk
+  simpa using this
+
+/-- `from_json` as a function of what it looks at: the duplicate check and the seven field lookups -/
+def smapOfFields (dup : Bool) (fm ff fr fd fs fc fn : Option JVal) : Option SMap :=
+  if dup then none else
+  match fm with
+  | some (.str mappings) => do
+    let file ← match ff with | some v => optStr v | none => some none
+    let sourceRoot ← match fr with | some v => optStr v | none => some none
+    let debugId ← match fd with | some v => optStr v | none => some none
+    let sources ← match fs with | some v => optStrArr v | none => some []
+    let sourcesContent ← match fc with | some v => optStrArr v | none => some []
+    let names ← match fn with | some v => optStrArr v | none => some []
+    pure { mappings, sources, sourcesContent, names, file, sourceRoot, debugId }
+  | _ => none
+
+theorem smapOfJson_fields (kvs : List (Text × JVal)) :
+    smapOfJson (.obj kvs) = smapOfFields (dupKnown kvs) (field kvs k_mappings) (field kvs k_file) (field kvs k_sourceRoot)
+      (field kvs k_debugId) (field kvs k_sources) (field kvs k_sourcesContent) (field kvs k_names) := rfl
+
+/-- **reordered keys**: `from_json` does not depend on the order of the members of the document -/
+theorem smapOfJson_perm (kvs kvs' : List (Text × JVal)) (h : kvs.Perm kvs') : smapOfJson (.obj kvs) = smapOfJson (.obj kvs') := by
+  rw [smapOfJson_fields, smapOfJson_fields, dupKnown_perm kvs kvs' h]
+  by_cases hd : dupKnown kvs' = true
+  · simp [smapOfFields, hd]
+  · have hd' : dupKnown kvs' = false := by simpa using hd
+    have hdk : dupKnown kvs = false := by rw [dupKnown_perm kvs kvs' h]; exact hd'
+    have hf : ∀ k ∈ knownKeys, field kvs k = field kvs' k := fun k hk => field_perm kvs kvs' h k (dupKnown_false_le kvs hdk k hk)
+    rw [hf k_mappings (by simp [knownKeys]), hf k_file (by simp [knownKeys]), hf k_sourceRoot (by simp [knownKeys]),
+      hf k_debugId (by simp [knownKeys]), hf k_sources (by simp [knownKeys]), hf k_sourcesContent (by simp [knownKeys]),
+      hf k_names (by simp [knownKeys])]
+
+end Rs.Json
